@@ -328,6 +328,45 @@ def remove_fold_end_rule(rep, u, fname="http_hdr_val_remove"):
     return 1
 
 
+def min_size_rule(rep, u, fname="http_parse_resp_line"):
+    """the size the function demands up front is exactly what its fixed-position tests read: one more than the highest
+    constant index (less: a read behind the block; more: the shortest legal status line "HTTP/1.1 204 " is refused)"""
+    fn = need(u, fname)
+    rep.functions.add(fname)
+    buf, size = fn.params[0], fn.params[1]
+    hi = -1
+    for pos, root, x, ps in fn.nodes():
+        if x.get("k") == "sub" and core.is_ref(strip_casts(x["b"]), name=buf["n"]) and const_val(x["i"]) is not None:
+            hi = max(hi, const_val(x["i"]))
+    guards = []
+    for bid in fn.reachable_blocks():
+        c = fn.blocks[bid].cond
+        if c is None:
+            continue
+        for y, _ in walk(c):
+            if y.get("k") == "bin" and y["op"] in ("<", ">", "<=", ">="):
+                a, b = strip_casts(y["x"]), strip_casts(y["y"])
+                for cst, var, op in ((a, b, y["op"]), (b, a, {"<": ">", ">": "<", "<=": ">=", ">=": "<="}[y["op"]])):
+                    if const_val(cst) is not None and core.is_ref(var, name=size["n"]):
+                        # normalised: const OP size
+                        k_ = const_val(cst)
+                        need_ = {">": k_, ">=": k_ + 1}.get(op)      # refused when size < need_
+                        if need_ is not None:
+                            guards.append((need_, y))
+    desc = "%s: the size demanded up front is one more than the highest fixed index tested (%d)" % (fname, hi)
+    if hi < 0 or not guards:
+        raise driver.AnalysisBroken("%s: fixed-index tests or the size guard not found" % fname)
+    need_, y = max(guards, key=lambda t: t[0])
+    if need_ == hi + 1:
+        rep.proved("R-SPAN", fn, "minimal-size", desc, "%s with indices up to %d" % (key(y), hi))
+    elif need_ > hi + 1:
+        rep.violated("R-SPAN", fn, "minimal-size", desc, "%s refuses blocks of %d bytes although nothing behind index %d is read: the status line \"HTTP/1.1 204 \" "
+                     "(empty reason phrase, %d bytes) is rejected" % (key(y), hi + 1, hi, hi + 1), y.get("ln"))
+    else:
+        rep.violated("R-SPAN", fn, "minimal-size", desc, "%s admits blocks of %d bytes, index %d is read" % (key(y), need_, hi), y.get("ln"))
+    return 1
+
+
 def trim_rule(rep, u, fname="skip_spwsp2"):
     """the trimmed size does not depend on whether the pointer is asked for"""
     fn = need(u, fname)
@@ -706,6 +745,7 @@ def run(rep, tier):
     rep.floor("fold byte classes", fold_rule(rep, u), 256)
     rep.floor("field-name/colon whitespace cases", htab_name_rule(rep, u), 8)
     remove_fold_end_rule(rep, u)
+    min_size_rule(rep, u)
     rep.floor("trim cases", trim_rule(rep, u), 6)
     count_rule(rep, u)
     rep.floor("method spellings", method_table(rep, u, consts), 14)
